@@ -1,5 +1,6 @@
 import GwcsModel.Tab
 import GwcsProofs.C11b
+import GwcsProofs.C11c
 import Mathlib.Tactic.FieldSimp
 import Mathlib.Tactic.Ring
 import Mathlib.Tactic.Linarith
